@@ -24,11 +24,12 @@ theorem trusted_nx_ends (cfg : Cfg) (st : PState) (ev : Event)
 example : (server ⟨[⟨false, 0, some [⟨.nx, 5⟩], none⟩], .user, 1, 100⟩ 0).trust = false := by decide
 
 /-- the search goes on inside the batch: the remaining replies are still handled -/
-theorem untrusted_nx_continues_batch (cfg : Cfg) (st : PState) (ev : Event) (evs : List Event)
-    (hnx : ev.reply = some .nx) (hu : (server cfg ev.srv).trust = false) :
-    processEvents cfg st (ev :: evs) =
-      processEvents cfg { st with clock := ev.fin, err := mostSpecific st.err .nx } evs := by
-  simp [processEvents, processEvent, hnx, hu]
+theorem untrusted_nx_continues_batch (cfg : Cfg) (dl : Nat) (st : PState) (ev : Event) (evs : List Event)
+    (hnx : ev.reply = some .nx) (hu : (server cfg ev.srv).trust = false) (hfin : ev.fin ≤ dl) :
+    processEvents cfg dl st (ev :: evs) =
+      processEvents cfg dl { st with clock := ev.fin, err := mostSpecific st.err .nx } evs := by
+  have : ¬ dl < ev.fin := by omega
+  simp [processEvents, processEvent, hnx, hu, this]
 
 /-- once an NXDOMAIN (or NODATA) has been remembered no later transport error replaces it -/
 theorem mostSpecific_keeps_norecords (e cur : Err) (h : e.isNoRecords = true) :
